@@ -75,7 +75,7 @@ def make_world(rng):
         listings.append(f"a{i}.s")
     binaries = []
     binmeta = {}
-    for j in range(rng.choice((1, 1, 2))):
+    for j in range(rng.choice((1, 2, 2))):
         elf, meta = _two_section_object(rng)
         if elf is None:
             continue
@@ -214,6 +214,16 @@ def make_world(rng):
             add("macro", "args_rax_rbx", {"pattern": [{"@pm": None, "marg1": "rax"}, {"$not": ["fxsave"]}, {"@pm": None, "marg1": "rbx"}]}, li, macros=["m_args.yaml"])
             add("macro", "args_rbx_rax", {"pattern": [{"@pm": None, "marg1": "rbx"}, {"$not": ["fxsave"]}, {"@pm": None, "marg1": "rax"}]}, li, macros=["m_args.yaml"])
             add("macro", "nomacro_same_pattern", {"pattern": [items[0], body_ok, items[2]]}, li)
+            # layered: a library macro whose body refers to a macro every rule defines for itself
+            macro_docs["m_layer.yaml"] = {"macros": [{"name": "@outer", "pattern": [{"$or": ["@inner", rng.choice(rules.DECOY_MN)]}]},
+                                                     {"name": "@outer2", "pattern": [{"$and": [items[0], "@inner"]}]}]}
+            files["m_layer.yaml"] = gen.dump_yaml(macro_docs["m_layer.yaml"])
+            def inner(body):
+                return {"name": "@inner", "pattern": body if isinstance(body, str) else [body]}
+            alt = _window_items(rng, dec, 1, substr=True, with_ops_p=0.0)
+            for vname, body in (("layer_ok", body_ok), ("layer_bad", body_bad), ("layer_alt", (alt or [body_bad])[0])):
+                add("macro", vname, {"macros": [inner(body)], "pattern": [items[0], "@outer", items[2]]}, li, macros=["m_layer.yaml"])
+                add("macro", vname + "2", {"macros": [inner(body)], "pattern": ["@outer2", items[2]]}, li, macros=["m_layer.yaml"])
 
     # ---- plain rules built with the full feature mix
     for li in listings:
@@ -331,14 +341,14 @@ def make_history(rng, world, with_faults):
 
 def _write_op(rng, files, pool, listings, binaries, macro_files, focus, byfam):
     c = rng.random()
-    if c < 0.5:
+    if c < 0.4:
         fam = byfam[focus] if rng.random() < 0.7 else rng.choice(list(byfam.values()))
         a, b = rng.choice(fam), rng.choice(fam)
         return {"op": "write", "path": a["rel"], "content": util.enc_content(files[b["rel"]]), "_tag": f"write:rule:{a['family']}"}
-    if c < 0.7 and len(macro_files) >= 2:
+    if c < 0.55 and len(macro_files) >= 2:
         a, b = rng.sample(macro_files, 2)
         return {"op": "write", "path": a, "content": util.enc_content(files[b]), "_tag": "write:macrofile"}
-    if c < 0.9 and len(listings) >= 2:
+    if c < 0.75 and len(listings) >= 2:
         a, b = rng.sample(listings, 2)
         return {"op": "write", "path": a, "content": util.enc_content(files[b]), "_tag": "write:listing"}
     if len(binaries) >= 2:
